@@ -162,7 +162,16 @@ def _sqrt(e, st, args, kw, n):
         r = SQRTF(simp(v.t))
         if not e.specmode:
             e.oblige(st, 'domain', v.t >= 0, n)
-        fact = z3.And(r >= 0, r * r == v.t)
+        if getattr(e.spec, 'opaque_mul', False):
+            # products are uninterpreted in this contract: keep only the linear consequences of the definition
+            fact = z3.And(r >= 0, (v.t > 0) == (r > 0))
+        else:
+            fact = z3.And(r >= 0, r * r == v.t)
+        if e.specmode:
+            # in a contract expression nothing guarantees the domain (the radicand may mention bound variables): guarded instance
+            fact = z3.Implies(v.t >= 0, fact)
+        if e.mentions_bound([v.t]):
+            return SV(r, 'real')        # under a quantifier: no ground instance to add
         if not any(fact.eq(x) for x in st.pc[-30:]):
             st.pc.append(fact)
         return SV(r, 'real')
